@@ -125,11 +125,21 @@ def rule_state(ctx):
             if isinstance(n, ast.Name) and isinstance(n.ctx, ast.Store):
                 shadow.add(n.id)
         mods = {k for k in m.consts if k not in shadow}
+        # a local name bound to a module container is the same object: `x = _TABLE; x += [..]` edits the table
+        alias = {}
+        for n in ast.walk(fn):
+            if isinstance(n, ast.Assign) and isinstance(n.value, ast.Name) and n.value.id in mods:
+                for t in n.targets:
+                    if isinstance(t, ast.Name):
+                        alias[t.id] = n.value.id
+        mods = mods | set(alias)
         out = []
         for n in ast.walk(fn):
             tgt = None
             if isinstance(n, (ast.Assign, ast.AugAssign)):
                 for t in (n.targets if isinstance(n, ast.Assign) else [n.target]):
+                    if isinstance(n, ast.AugAssign) and isinstance(t, ast.Name) and t.id in alias:
+                        tgt = t.id          # in place for lists, sets and arrays
                     if isinstance(t, ast.Subscript):
                         r_ = t.value
                         while isinstance(r_, (ast.Subscript, ast.Attribute)):
@@ -140,13 +150,18 @@ def rule_state(ctx):
                     and n.func.attr in ('append', 'extend', 'update', 'setdefault', 'add', 'insert', 'pop', 'clear', 'popitem'):
                 tgt = n.func.value.id
             if tgt:
-                out.append((tgt, n.lineno))
+                out.append((alias.get(tgt, tgt), n.lineno))
         return out
     ex = ast.parse("_MEMO = {}\ndef f(k):\n    if k not in _MEMO:\n        _MEMO[k] = k * 2\n    return _MEMO[k]\n")
     class _M:
         consts = {'_MEMO': ex.body[0].value}
     if not module_state_writes(_M, ex.body[1]):
         raise AnalysisError("module-state detector no longer matches its positive example")
+    ex2 = ast.parse("_SKIP = [1, 2]\ndef f(dup):\n    skip = _SKIP\n    if dup:\n        skip += [4]\n    return sum(skip)\n")
+    class _M2:
+        consts = {'_SKIP': ex2.body[0].value}
+    if not module_state_writes(_M2, ex2.body[1]):
+        raise AnalysisError("module-state detector no longer matches its positive example (alias)")
     ms = []
     for q, f in ctx.prog.funcs.items():
         for name, ln in module_state_writes(f.module, f.node):
